@@ -36,6 +36,11 @@ impl Str {
         ensures r@ == self.bytes(), is_utf8(r@),
     { unimplemented!() }
 
+    #[verifier::external_body]
+    pub fn len(&self) -> (r: usize) ensures r == self.bytes().len() { unimplemented!() }
+    #[verifier::external_body]
+    pub fn is_empty(&self) -> (r: bool) ensures r == (self.bytes().len() == 0) { unimplemented!() }
+
     /// <str as AsRef<[u8]>>::as_ref
     #[verifier::external_body]
     pub fn as_ref(&self) -> (r: &[u8])
@@ -173,72 +178,192 @@ pub proof fn axiom_utf8_empty()
     ensures is_utf8(Seq::<u8>::empty()),
 { }
 
+/// `s[..]` on a str is the str itself; `==` on strs compares their bytes (std)
+impl vstd::std_specs::core::IndexSpecImpl<core::ops::RangeFull> for Str {
+    open spec fn index_req(&self, r: &core::ops::RangeFull) -> bool { true }
+}
+impl core::ops::Index<core::ops::RangeFull> for Str {
+    type Output = Str;
+    #[verifier::external_body]
+    fn index(&self, r: core::ops::RangeFull) -> (o: &Str) ensures o.bytes() == self.bytes() { unimplemented!() }
+}
+impl vstd::std_specs::cmp::PartialEqSpecImpl for Str {
+    open spec fn obeys_eq_spec() -> bool { true }
+    open spec fn eq_spec(&self, other: &Str) -> bool { self.bytes() == other.bytes() }
+}
+impl PartialEq for Str {
+    #[verifier::external_body]
+    fn eq(&self, other: &Str) -> bool { unimplemented!() }
+}
+/// anything `AsRef<str>` (the `T` of `impl<T: AsRef<str>> PartialEq<T> for ByteString`)
+pub trait AsRefStr { spec fn spec_str(&self) -> Seq<u8>; fn as_ref(&self) -> (r: &Str) ensures r.bytes() == self.spec_str(); }
+
+/// core::fmt stand-ins.  A Formatter is modelled by the bytes written so far (`out`) and its options (`opts`: width,
+/// fill, alignment, precision, flags — uninterpreted).  `str_display(b, o)` / `str_debug(b, o)` are what
+/// `<str as Display>::fmt` / `<str as Debug>::fmt` write for the str with bytes `b` under options `o` (std, NOT verified).
+pub struct FmtOpts { pub _o: int }
+pub uninterp spec fn str_display(b: Seq<u8>, o: FmtOpts) -> Seq<u8>;
+pub uninterp spec fn str_debug(b: Seq<u8>, o: FmtOpts) -> Seq<u8>;
+pub uninterp spec fn str_fmt_ok(b: Seq<u8>, o: FmtOpts, debug: bool) -> bool;
+pub mod fmt {
+    use vstd::prelude::*;
+    use super::{Str, FmtOpts, str_display, str_debug, str_fmt_ok};
+    #[verifier::external_body]
+    pub struct Formatter<'a> { _p: core::marker::PhantomData<&'a ()> }
+    pub struct Error;
+    pub type Result = core::result::Result<(), Error>;
+    impl<'a> Formatter<'a> {
+        pub uninterp spec fn out(&self) -> Seq<u8>;
+        pub uninterp spec fn opts(&self) -> FmtOpts;
+        #[verifier::external_body]
+        pub fn write_str(&mut self, s: &Str) -> (r: Result)
+            ensures final(self).out() == old(self).out() + s.bytes(), final(self).opts() == old(self).opts(),
+        { unimplemented!() }
+    }
+    // each trait lives in its own module so that, as in the real crate, neither is in scope by name
+    pub mod display {
+        use vstd::prelude::*;
+        use super::{Formatter, Result};
+        use super::super::{Str, FmtOpts, str_display, str_fmt_ok};
+        /// `display_spec(o)`: what `fmt` writes under options `o`; the trait's contract ties `fmt` to it
+        pub trait Display {
+            spec fn display_spec(&self, o: FmtOpts) -> Seq<u8>;
+            spec fn display_ok(&self, o: FmtOpts) -> bool;
+            fn fmt(&self, f: &mut Formatter<'_>) -> (r: Result)
+                ensures final(f).out() == old(f).out() + self.display_spec(old(f).opts()), final(f).opts() == old(f).opts(),
+                        r is Ok == self.display_ok(old(f).opts());
+        }
+        impl Display for Str {
+            open spec fn display_spec(&self, o: FmtOpts) -> Seq<u8> { str_display(self.bytes(), o) }
+            open spec fn display_ok(&self, o: FmtOpts) -> bool { str_fmt_ok(self.bytes(), o, false) }
+            #[verifier::external_body]
+            fn fmt(&self, f: &mut Formatter<'_>) -> (r: Result) { unimplemented!() }
+        }
+    }
+    pub mod debug {
+        use vstd::prelude::*;
+        use super::{Formatter, Result};
+        use super::super::{Str, str_debug, str_fmt_ok};
+        pub trait Debug { fn fmt(&self, f: &mut Formatter<'_>) -> Result; }
+        impl Debug for Str {
+            #[verifier::external_body]
+            fn fmt(&self, f: &mut Formatter<'_>) -> (r: Result)
+                ensures final(f).out() == old(f).out() + str_debug(self.bytes(), old(f).opts()), final(f).opts() == old(f).opts(),
+                        r is Ok == str_fmt_ok(self.bytes(), old(f).opts(), true),
+            { unimplemented!() }
+        }
+    }
+    pub use display::Display;
+    pub use debug::Debug;
+}
+/// core::hash: `str_hash(b, h)` is the hasher state after `<str as Hash>::hash` of the str with bytes `b` from state `h`
+pub mod hash {
+    use vstd::prelude::*;
+    use super::Str;
+    pub trait Hasher: Sized { spec fn st(&self) -> int; }
+    pub uninterp spec fn str_hash(b: Seq<u8>, h: int) -> int;
+    pub trait Hash { fn hash<H: Hasher>(&self, state: &mut H); }
+    /// `Bytes` hashes as a byte slice (length-prefixed), NOT as a str
+    pub uninterp spec fn bytes_hash(b: Seq<u8>, h: int) -> int;
+    impl Hash for super::Bytes {
+        #[verifier::external_body]
+        fn hash<H: Hasher>(&self, state: &mut H)
+            ensures final(state).st() == bytes_hash(self@, old(state).st()),
+        { unimplemented!() }
+    }
+    impl Hash for Str {
+        #[verifier::external_body]
+        fn hash<H: Hasher>(&self, state: &mut H)
+            ensures final(state).st() == str_hash(self.bytes(), old(state).st()),
+        { unimplemented!() }
+    }
+}
+
 // ===================================================================== the real type
-pub struct ByteString(pub Bytes);
+/// the field is NOT publicised (R3 exception): Verus type invariants need private fields
+pub struct ByteString(Bytes);
 //@check_no_derive file=bytestring/src/lib.rs name=ByteString forbid=Copy
 
 impl ByteString {
-    /// representation invariant: every ByteString obtainable through the safe API holds valid UTF-8   [C20]
-    pub open spec fn wf(&self) -> bool { is_utf8(self.0@) }
-
-    /// <ByteString as AsRef<str>>::as_ref / Deref: the str view exists only for valid UTF-8
-    #[verifier::external_body]
-    pub fn as_ref(&self) -> (r: &Str)
-        requires self.wf(),
-        ensures r.bytes() == self.0@,
-    { unimplemented!() }
+    /// TYPE INVARIANT: every ByteString that exists holds valid UTF-8   [C20].  Verus checks it at every construction
+    /// site `ByteString(..)`/`Self(..)` ("constructed value may fail to meet its declared type invariant") and lets a
+    /// function use it for a value it is given (`use_type_invariant`).
+    #[verifier::type_invariant]
+    pub closed spec fn wf(self) -> bool { is_utf8(self.0@) }
+    /// the bytes
+    pub closed spec fn view(&self) -> Seq<u8> { self.0@ }
 
 //@extract file=bytestring/src/lib.rs item="impl ByteString / fn new" ret=r props=C20
 //@spec
-    ensures r.wf(), r.0@.len() == 0,
+    ensures r@.len() == 0,
 //@insert after="{"
         proof { axiom_utf8_empty(); }
 //@end
 
 //@extract file=bytestring/src/lib.rs item="impl ByteString / fn as_bytes" ret=r props=C20
 //@spec
-    ensures r@ == self.0@,
+    ensures r@ == self@,
 //@end
 
 //@extract file=bytestring/src/lib.rs item="impl ByteString / fn into_bytes" ret=r props=C20
 //@spec
-    ensures r@ == self.0@,
+    ensures r@ == self@,
 //@end
 
 //@extract file=bytestring/src/lib.rs item="impl ByteString / fn from_static" ret=r props=C20 sig_replace="&'static str=>&'static Str"
 //@spec
-    ensures r.wf(), r.0@ == src.bytes(),
+    ensures r@ == src.bytes(),
 //@end
 
 //@extract file=bytestring/src/lib.rs item="impl ByteString / fn from_bytes_unchecked" ret=r props=C20 sig_replace="const unsafe fn=>const fn"
 //@spec
     requires is_utf8(src@),     // the safety contract of this unsafe fn, made explicit; callers must establish it
-    ensures r.0@ == src@, r.wf(),
+    ensures r@ == src@,
 //@end
 
 //@extract file=bytestring/src/lib.rs item="impl ByteString / fn split_at" ret=r props=C20
 //@spec
-    requires self.wf(),
     ensures
         // returns only where str::split_at returns: at a char boundary   [C20] (panics exactly when str does)
-        mid <= self.0@.len() && is_boundary(self.0@, mid as int),
-        r.0.wf() && r.1.wf(),   // [C20]
-        r.0.0@ == self.0@.subrange(0, mid as int) && r.1.0@ == self.0@.subrange(mid as int, self.0@.len() as int),   // [C20]
+        mid <= self@.len() && is_boundary(self@, mid as int),
+        r.0@ == self@.subrange(0, mid as int) && r.1@ == self@.subrange(mid as int, self@.len() as int),   // [C20]
 //@replace pattern="let this: &str" rule=R15
 let this: &Str
 //@end
 
 //@extract file=bytestring/src/lib.rs item="impl ByteString / fn slice_ref" ret=r props=C20 sig_replace="&str=>&Str"
 //@spec
-    ensures r.wf(), r.0@ == subset.bytes(),
+    ensures r@ == subset.bytes(),
 //@end
 
+}
+
+impl core::ops::Deref for ByteString {
+    type Target = Str;
 //@extract file=bytestring/src/lib.rs item="impl ops::Deref for ByteString / fn deref" ret=r props=C20 sig_replace="&str=>&Str"
 //@spec
-    requires self.wf(),        // exactly what makes the `from_utf8_unchecked` inside sound   [C20]
-    ensures r.bytes() == self.0@,
+    ensures r.bytes() == self@,
+//@insert after="{"
+        // the type invariant is exactly what makes the `from_utf8_unchecked` below sound   [C20]
+        proof { use_type_invariant(self); }
 //@end
+}
 
+/// `impl AsRef<str>`, `impl AsRef<[u8]>`, `impl Borrow<str>` for ByteString: emitted as inherent methods (Verus cannot
+/// type the `ensures` of an impl of these generic std traits); bodies are the real text
+impl ByteString {
+//@extract file=bytestring/src/lib.rs item="impl AsRef<str> for ByteString / fn as_ref" ret=r props=C20 sig_replace="&str=>&Str" name=lib::as_ref_str
+//@spec
+    ensures r.bytes() == self@,
+//@end
+//@extract file=bytestring/src/lib.rs item="impl AsRef<[u8]> for ByteString / fn as_ref" ret=r props=C20 name=lib::as_ref_bytes sig_replace="fn as_ref(=>fn as_ref_bytes("
+//@spec
+    ensures r@ == self@,
+//@end
+//@extract file=bytestring/src/lib.rs item="impl Borrow<str> for ByteString / fn borrow" ret=r props=C20 sig_replace="&str=>&Str" name=lib::borrow
+//@spec
+    ensures r.bytes() == self@,
+//@end
 }
 
 impl vstd::std_specs::convert::FromSpecImpl<String> for ByteString {
@@ -274,21 +399,21 @@ impl vstd::std_specs::convert::TryFromSpecImpl<BytesMut> for ByteString {
 impl From<String> for ByteString {
 //@extract file=bytestring/src/lib.rs item="impl From<String> for ByteString / fn from" ret=r props=C20 name=lib::from_string
 //@spec
-    ensures r.wf(), r.0@ == value.bytes(),
+    ensures r@ == value.bytes(),
 //@end
 }
 
 impl From<&Str> for ByteString {
 //@extract file=bytestring/src/lib.rs item="impl From<&str> for ByteString / fn from" ret=r props=C20 name=lib::from_str sig_replace="&str=>&Str"
 //@spec
-    ensures r.wf(), r.0@ == value.bytes(),
+    ensures r@ == value.bytes(),
 //@end
 }
 
 impl From<BoxStr> for ByteString {
 //@extract file=bytestring/src/lib.rs item="impl From<Box<str>> for ByteString / fn from" ret=r props=C20 name=lib::from_box_str sig_replace="Box<str>=>BoxStr"
 //@spec
-    ensures r.wf(), r.0@ == value.bytes(),
+    ensures r@ == value.bytes(),
 //@end
 }
 
@@ -298,7 +423,7 @@ impl TryFrom<&[u8]> for ByteString {
 //@spec
     ensures
         r.is_ok() <==> is_utf8(value@),   // [C20] accepts exactly what str::from_utf8 accepts
-        r matches Ok(b) ==> b.wf() && b.0@ == value@,
+        r matches Ok(b) ==> b@ == value@,
 //@end
 }
 
@@ -308,7 +433,7 @@ impl TryFrom<Vec<u8>> for ByteString {
 //@spec
     ensures
         r.is_ok() <==> is_utf8(value@),   // [C20]
-        r matches Ok(b) ==> b.wf() && b.0@ == value@,
+        r matches Ok(b) ==> b@ == value@,
 //@end
 }
 
@@ -318,7 +443,7 @@ impl TryFrom<Bytes> for ByteString {
 //@spec
     ensures
         r.is_ok() <==> is_utf8(value@),   // [C20]
-        r matches Ok(b) ==> b.wf() && b.0@ == value@,
+        r matches Ok(b) ==> b@ == value@,
 //@end
 }
 
@@ -328,7 +453,70 @@ impl TryFrom<BytesMut> for ByteString {
 //@spec
     ensures
         r.is_ok() <==> is_utf8(value@),   // [C20]
-        r matches Ok(b) ==> b.wf() && b.0@ == value@,
+        r matches Ok(b) ==> b@ == value@,
+//@end
+}
+
+
+impl fmt::Debug for ByteString {
+//@extract file=bytestring/src/lib.rs item="impl fmt::Debug for ByteString / fn fmt" ret=r props=C20 name=lib::debug_fmt
+//@spec
+    ensures
+        // Debug agrees with str's Debug, whatever the formatter's options   [C20]
+        final(fmt).out() == old(fmt).out() + str_debug(self@, old(fmt).opts()), final(fmt).opts() == old(fmt).opts(),
+        r is Ok == str_fmt_ok(self@, old(fmt).opts(), true),
+//@end
+}
+impl fmt::Display for ByteString {
+    // Display agrees with str's Display, whatever the formatter's options (width, fill, precision, ..)   [C20]
+    open spec fn display_spec(&self, o: FmtOpts) -> Seq<u8> { str_display(self@, o) }
+    open spec fn display_ok(&self, o: FmtOpts) -> bool { str_fmt_ok(self@, o, false) }
+//@extract file=bytestring/src/lib.rs item="impl fmt::Display for ByteString / fn fmt" ret=r props=C20 name=lib::display_fmt
+//@spec
+//@end
+}
+/// alloc::string::ToString (blanket impl over Display: formats with the DEFAULT options into a new String, and panics
+/// if `fmt` fails — std, NOT verified); under default options a str is written as it is
+pub uninterp spec fn default_opts() -> FmtOpts;
+#[verifier::external_body]
+pub proof fn axiom_display_default(b: Seq<u8>)
+    ensures str_display(b, default_opts()) == b, str_fmt_ok(b, default_opts(), false),
+{ }
+pub trait ToString { fn to_string(&self) -> String; }
+impl<T: fmt::Display> ToString for T {
+    #[verifier::external_body]
+    fn to_string(&self) -> (r: String)
+        ensures r.bytes() == self.display_spec(default_opts()),
+    { unimplemented!() }
+}
+impl vstd::std_specs::convert::FromSpecImpl<ByteString> for String {
+    open spec fn obeys_from_spec() -> bool { false }
+    uninterp spec fn from_spec(s: ByteString) -> String;
+}
+impl From<ByteString> for String {
+//@extract file=bytestring/src/lib.rs item="impl From<ByteString> for String / fn from" ret=r props=C20 name=lib::into_string
+//@spec
+    ensures r.bytes() == value@,   // [C20] conversion back to String keeps the bytes
+//@insert after="{"
+        proof { axiom_display_default(value@); }
+//@end
+}
+impl hash::Hash for ByteString {
+//@extract file=bytestring/src/lib.rs item="impl hash::Hash for ByteString / fn hash" props=C20 name=lib::hash
+//@spec
+    ensures final(state).st() == hash::str_hash(self@, old(state).st()),   // [C20] hashes as the equivalent str does
+//@end
+}
+
+
+impl ByteString {
+//@extract file=bytestring/src/lib.rs item="impl PartialEq<str> for ByteString / fn eq" ret=r props=C20 name=lib::eq_str sig_replace="&str=>&Str;;fn eq(=>fn eq_str("
+//@spec
+    ensures r == (self@ == other.bytes()),   // [C20] compares as the equivalent str does
+//@end
+//@extract file=bytestring/src/lib.rs item="impl<T: AsRef<str>> PartialEq<T> for ByteString / fn eq" ret=r props=C20 name=lib::eq_as_ref sig_replace="fn eq(&self, other: &T)=>fn eq_as_ref<T: AsRefStr>(&self, other: &T)"
+//@spec
+    ensures r == (self@ == other.spec_str()),   // [C20]
 //@end
 }
 
